@@ -35,8 +35,10 @@ func DoRSAencrypt(block []byte, key *rsa.PublicKey) []byte {
 
 	c := big.NewInt(0).Exp(z, exponent, key.N)
 
+	// result is 2048 bit number: if it's smaller, leading bytes are zeros (not trailing ones)
 	res := make([]byte, 256)
-	copy(res, c.Bytes())
+	cBytes := c.Bytes()
+	copy(res[len(res)-len(cBytes):], cBytes)
 
 	return res
 }
